@@ -158,6 +158,16 @@ def main(argv=None):
     os.makedirs(os.path.dirname(ev_path), exist_ok=True)
     work = os.path.join(ROOT, ".work", prop)
     os.makedirs(work, exist_ok=True)
+    cubes_dir = os.path.join(ROOT, ".work", "cubes")
+    if os.path.isdir(cubes_dir):      # generated wrapper modules of earlier runs (kept only while their process runs)
+        now = time.time()
+        for fn_ in os.listdir(cubes_dir):
+            fp = os.path.join(cubes_dir, fn_)
+            try:
+                if now - os.path.getmtime(fp) > 3600:
+                    os.unlink(fp)
+            except OSError:
+                pass
 
     try:
         mod = importlib.import_module(HARNESS[prop])
